@@ -774,7 +774,7 @@ class XMLParserMixin(
             context = self.sourcedata
         elif self.inimage and "image" in self.feeddata:
             context = self.feeddata["image"]
-        elif self.intextinput:
+        elif self.intextinput and "textinput" in self.feeddata:
             context = self.feeddata["textinput"]
         elif self.inentry:
             context = self.entries[-1]
